@@ -7,6 +7,7 @@ RawBytes == {"ChannelId", "CustomerRandomness", "MerchantRandomness"}
 Forbidden(s, f, inPair, class) ==
   \/ class \in GroupInvalid
   \/ class = "tag_out_of_range"
+  \/ class = "len_other"                           \* element count of a fixed-length array other than N
   \/ class = "noncanonical" /\ s \notin RawBytes
   \/ class = "identity" /\ (s \in {"PublicKey", "PedersenParameters"} \/ (s = "Signature" /\ f = "sigma1") \/ (s = "SecretKey" /\ f = "x1"))
   \/ class = "zero" /\ s = "SecretKey" /\ f # "x1"
